@@ -48,6 +48,22 @@ def run(ctx):
         if a != b:
             res['oracle_failures'].append({'what': 'two executions of the same program in one interpreter differ',
                                            'signature': 'not-reproducible', 'case': c.to_json()})
+    # network scenarios (schedulers, port, wire; int and string flow ids) under several hash seeds
+    from harness import netscen
+    base = netscen.all_digests(ctx.seed)
+    nnet = len(base)
+    for hs in seeds:
+        env = dict(os.environ, PYTHONHASHSEED=str(hs), PYTHONPATH=f'{VERIF}:{REPO}')
+        r = subprocess.run([sys.executable, '-m', 'harness.netscen', str(ctx.seed)], capture_output=True, text=True, env=env, timeout=900, cwd=VERIF)
+        if r.returncode != 0:
+            raise RuntimeError('network scenario interpreter failed: ' + r.stderr[-800:])
+        other = json.loads(r.stdout)
+        nnet += len(other)
+        for k in base:
+            if base[k] != other.get(k):
+                res['oracle_failures'].append({'what': f'network scenario {k}: the delivery trace under PYTHONHASHSEED={hs} differs from the in-process run',
+                                               'signature': 'hashseed-dependence-net', 'case': {'scenario': k, 'seed': ctx.seed, 'hashseed': hs}})
+    res['coverage']['network_scenario_runs'] = nnet
     res['coverage']['reproducibility_runs'] = 2 * len(cases) + nfresh
     res['coverage']['hash_seeds'] = seeds
     return res
